@@ -1,4 +1,5 @@
 (* C03: the statements.  This file contains nothing but the property theorems. *)
+From Maddy Require Session.Committed.
 From Maddy Require Import Lib.Base Session.Model Session.Lemmas.
 Local Open Scope N_scope.
 
@@ -46,6 +47,27 @@ Theorem C03_lmtp_success_means_every_target_committed :
       In (txn, od_t o, od_i o, ECommit true) ev2.
 Proof. exact lmtp_success_means_committed. Qed.
 Print Assumptions C03_lmtp_success_means_every_target_committed.
+
+(* Over whole SMTP sessions: after any sequence of MAIL, RCPT, DATA, RSET and NOOP commands
+   ([Committed.quiet]: no second EHLO inside the session - known finding 107 lives in the SMTP
+   library - and the session has not ended), a DATA command answered with success has committed,
+   in the events of this very step, a delivery on every target of every recipient the driver lists
+   for the transaction ... *)
+Theorem C03_session_success_commits_every_recipient :
+  forall c ks rd s',
+    lmtp c = false -> forallb Committed.quiet ks = true ->
+    step c (Committed.after c ks) (CData rd) = (s', ROk) ->
+    exists ev, log s' = log (Committed.after c ks) ++ ev /\
+      forall r, In r (d_rcpts (Committed.after c ks)) -> forall t, In t (route_of c r) ->
+        exists txn i, In (txn, t, i, ECommit true) ev.
+Proof. exact Committed.session_success_commits_every_recipient. Qed.
+Print Assumptions C03_session_success_commits_every_recipient.
+
+(* ... where the driver lists a recipient exactly when its RCPT was answered with success *)
+Theorem C03_accepted_recipient_is_listed :
+  forall c s r s', do_rcpt c s r = (s', ROk) -> d_rcpts s' = d_rcpts s ++ [r].
+Proof. exact Committed.rcpt_ok_listed. Qed.
+Print Assumptions C03_accepted_recipient_is_listed.
 
 (* non-vacuity: a session with a failing second target *)
 Example C03_example :
